@@ -46,6 +46,11 @@ def history(writer, blocked, nrec, fins, maxlen):
             if k == 0:
                 snap = f.getvalue()
         final = f.getvalue()
+        if blocked and writer == 'vbs':
+            from .c03 import stream_of
+            check_blocked(final, stream_of(recs), True, nblocks + 2, 'finalised blocked file', key='C11/blocked-form', replay=rp)
+        elif blocked:
+            require(s_eq(rlen(final) % 1014, 0), 'finalised blocked file is not a whole number of 1014-byte blocks', key='C11/blocked-form', replay=rp)
         if len(fins) > 1:
             req_eq(final, snap, 'a later finalisation changed the file completed by the first one', key='C11/refinalise', replay=rp)
         # read back
